@@ -234,9 +234,14 @@ def run(tier, seed, log=common.say):
         m = bad_by_obs.get(id(r))
         tl_bad = bool(m) and any(c.endswith((".value", ".exec")) for c in m["c"])
         py_in = not ref.get("err") and not ref.get("argerr")
-        kept = py_in and not r["raised"] and r["val"] != ref["val"] and r["val"] == ref["valK"]     # the recorded C10 finding, not ".value"
-        idx_none = py_in and r["raised"] and ref["errI"] and r["errclass"] in ("AttributeError", "TypeError")     # the other recorded C10 finding
-        py_bad = py_in and ((r["raised"] and not idx_none) or (not r["raised"] and ((r["val"] != ref["val"] and not kept) or r["exec"] != ref["exec"])))
+        # the recorded C10 findings are not ".value" / ".exec" mismatches (same definitions as spec/DfCheck.tla)
+        pre_l = r.get("pre", [])
+        letter = py_in and not r["raised"] and r["val"] == ref["val"] and r["exec"] == ref["exec"]
+        keep = py_in and (r["raised"] if ref["errK"] else (not r["raised"] and r["val"] == ref["valK"] and
+                                                            r["exec"] == [p for p in ref["execK"] if p not in pre_l]))
+        kept = (not letter) and keep
+        idx_none = py_in and r["raised"] and ref["errI"] and r["errclass"] in ("AttributeError", "TypeError")
+        py_bad = py_in and not letter and not kept and not idx_none
         if tl_bad != py_bad:
             oracle_dis.append({"given": r["given"], "tlc": m["c"] if m else [], "ref": ref})
     viol_counts, viols, kept = {}, [], {}
